@@ -6,7 +6,7 @@ parameter names, so positional/keyword style, variable names of temporaries and 
   * zernike_compose: one loop over np.ndenumerate(coeffs) accumulating coeff * zernike(mask, <index expr>, normalize, rho, theta);
   * zernike_basis: one loop over np.ndenumerate(modes) storing zernike(mask, mode, normalize, rho, theta) at the loop position, and the
     vectorised return reshaping to (number of modes, -1);
-  * zernike_fit: basis = zernike_basis(mask, modes, vectorize=True, normalize, rho, theta); pinv of it; einsum(<subscripts>, pinv, opd.ravel(order=...)) — the subscripts become the definition Gen.fitContract, the flattening order Gen.ravelIndex;
+  * zernike_fit: basis = zernike_basis(mask, modes, vectorize=True, normalize, rho, theta); pinv of it; the OPD restricted to the mask support (`np.where(mask != 0, opd, 0)` -> Gen.fitSelect); einsum(<subscripts>, pinv, opd.ravel(order=...)) — the subscripts become the definition Gen.fitContract, the flattening order Gen.ravelIndex;
   * zernike_remove: the fit and the basis are requested with the same (mask, modes, rho, theta) and the library-default normalisation, and
     the residual is opd - einsum('ijk,i->jk', basis, coeffs)."""
 import ast, os
@@ -146,6 +146,20 @@ def _generator(repo):
     rav = es.args[2]
     if not (isinstance(rav, ast.Call) and isinstance(rav.func, ast.Attribute) and rav.func.attr in ('ravel', 'flatten') and ast.unparse(rav.func.value) == 'opd'):
         raise Refuse('zernike_fit: the second einsum operand is not opd.ravel(): ' + ast.unparse(rav))
+    # the statement that restricts the OPD to the mask support before the contraction: `opd = np.where(mask != 0, opd, 0)` -> Gen.fitSelect
+    sel = [x for x in ZF.body if isinstance(x, ast.Assign) and ast.unparse(x.targets[0]) == 'opd' and isinstance(x.value, ast.Call) and ast.unparse(x.value.func) == 'np.where']
+    if len(sel) > 1: raise Refuse('zernike_fit: more than one np.where on the OPD')
+    if sel:
+        w = sel[0].value
+        if [ast.unparse(a) for a in w.args] not in (['mask != 0', 'opd', '0'], ['mask != 0', 'opd', '0.0']) or w.keywords:
+            raise Refuse('zernike_fit: OPD selection ' + ast.unparse(sel[0]))
+        if ZF.body.index(sel[0]) > max(i for i, x in enumerate(ZF.body) if any(isinstance(n, ast.Call) and ast.unparse(n.func).endswith('einsum') for n in ast.walk(x))):
+            raise Refuse('zernike_fit: the OPD is selected after the contraction')
+        select_def = ('/-- `zernike_fit`: `opd = np.where(mask != 0, opd, 0)` before the contraction — one sample; `mask` = the sample belongs to the support -/\n'
+                      'def fitSelect {K : Type} [Zero K] (mask : Bool) (opd : K) : K := if mask then opd else 0\n')
+    else:
+        select_def = ('/-- `zernike_fit` contracts the OPD as given (no selection with the mask) -/\n'
+                      'def fitSelect {K : Type} [Zero K] (mask : Bool) (opd : K) : K := opd\n')
     ravel_def = _order_def('ravelIndex', _order_of(rav, 'ravel'), '`zernike_fit`: the sample number of pixel (r, c) in `opd.ravel()`')
     notes.append("zernike_fit: einsum('ij,i->j', pinv(zernike_basis(<Gen.fitBasisArgs>)), opd.ravel())")
     _, zf_def = _params(ZF); _, zb_def = _params(ZB)
@@ -170,7 +184,7 @@ def _generator(repo):
             f'def removeFitArgs {{O Mk Md C : Type}} (a : RemoveArgs O Mk Md C) : FitArgs O Mk Md C :=\n  {rem_fit}\n\n'
             '/-- `zernike_remove`: the arguments of its `zernike_basis` call -/\n'
             f'def removeBasisArgs {{O Mk Md C : Type}} (a : RemoveArgs O Mk Md C) : BasisArgs Mk Md C :=\n  {rem_basis}\n\n'
-            + fit_contract + '\n' + rem_contract + '\n' + ravel_def + '\n' + reshape_def)
+            + select_def + '\n' + fit_contract + '\n' + rem_contract + '\n' + ravel_def + '\n' + reshape_def)
     return lean, notes
 
 MODULES = [{'name': 'ZernikeCalls', 'src': 'lentil/zernike.py', 'generator': _generator, 'props': ['C12']}]
